@@ -278,7 +278,7 @@ def eval_shard(args):
         return idx, None, "unparsed coqc output: " + flat[-500:]
     corr = [int(x) for x in re.findall(r"-?\d+", m.group(1))]
     orc = [int(x) for x in re.findall(r"-?\d+", m.group(2))]
-    kn = [(int(a), int(b)) for a, b in re.findall(r"\((\d+)\s*,\s*(\d+)\)", m.group(3))]
+    kn = [(int(a), int(b)) for a, b in re.findall(r"\(\s*(\d+)\s*,\s*(\d+)\s*\)", m.group(3))]
     return idx, (corr, orc, kn), ""
 
 
